@@ -12,6 +12,7 @@ import (
 	"github.com/goatcms/goatcore/app/modules/pipelinem/pipservices/namespaces"
 	"github.com/goatcms/goatcore/varutil/goaterr"
 	"github.com/goatcms/goatcore/varutil/varg"
+	"github.com/goatcms/goatcore/workers/verifhook"
 )
 
 // Try run pip:try command
@@ -153,6 +154,7 @@ func Try(a app.App, ctx app.IOContext) (err error) {
 			}
 			submitted = append(submitted, "finally")
 		}
+		verifhook.At("pipc.try.finally-submitted")
 		// run fail (if required)
 		if deps.FailBody != "" && catchErr != nil {
 			if err = deps.Runner.Run(pipservices.Pip{
